@@ -134,6 +134,7 @@ const (
 	opWait
 	opExitThread
 	opGoSlot
+	opSend
 )
 
 type pendingOp struct {
@@ -165,14 +166,23 @@ type thread struct {
 	lastSync string
 	lastEvt  string
 	killed   bool
+	// an unbuffered send parked in Send: matched by a receiver (or hit by a close)
+	sendMatched bool
+	sendClosed  bool
+	sendDo      func()   // performs the real send; run on a helper goroutine when a receiver takes it
+	sendVC      []uint32 // the sender's clock at the send
+	recvVC      []uint32 // the receiver's clock at the rendezvous
 }
 
 type chanState struct {
-	closed bool
-	vc     []uint32
-	name   string
-	ctx    *Ctx
+	closed  bool
+	vc      []uint32
+	name    string
+	ctx     *Ctx
+	senders []*thread // parked, unmatched senders (generated code never sends; changed generators may)
 }
+
+func (cs *chanState) ready() bool { return cs != nil && (cs.closed || len(cs.senders) > 0) }
 
 type varState struct {
 	keep  any
@@ -339,6 +349,12 @@ func (s *Sim) describe(t *thread) BlockedRec {
 	case opGoSlot:
 		b.Op = "go-slot"
 		b.Detail = "eg.Go blocked by SetLimit"
+	case opSend:
+		b.Op = "chan-send"
+		b.Detail = strings.Join(t.op.names, ",") + "<-"
+		if cs := s.chans[t.op.chans[0]]; cs != nil {
+			b.Chans = append(b.Chans, cs.name)
+		}
 	default:
 		b.Op = "other"
 	}
@@ -451,14 +467,15 @@ func (s *Sim) enabled(t *thread) bool {
 	case opStart, opClose, opEnter, opExitThread:
 		return true
 	case opRecv:
-		cs := s.chans[t.op.chans[0]]
-		return cs != nil && cs.closed
+		return s.chans[t.op.chans[0]].ready()
+	case opSend:
+		return t.sendMatched || t.sendClosed
 	case opSelect:
 		if t.op.hasDef {
 			return true
 		}
 		for _, c := range t.op.chans {
-			if cs := s.chans[c]; cs != nil && cs.closed {
+			if s.chans[c].ready() {
 				return true
 			}
 		}
@@ -636,7 +653,7 @@ func (s *Sim) decideSelect(t *thread) int {
 	var ready []int
 	ctxReady, chReady := -1, -1
 	for i, c := range t.op.chans {
-		if cs := s.chans[c]; cs != nil && cs.closed {
+		if cs := s.chans[c]; cs.ready() {
 			ready = append(ready, i)
 			if cs.ctx != nil {
 				ctxReady = i
@@ -765,8 +782,54 @@ func Recv(ch <-chan struct{}, name string) {
 	}
 	s.yield(pendingOp{kind: opRecv, chans: []uintptr{k}, names: []string{cs.name}})
 	s.acquire(s.cur, cs.vc)
+	s.takeSender(cs)
 	s.cur.lastEvt = "recv"
 	s.event(s.cur.id, "recv", cs.name)
+}
+
+// takeSender completes the rendezvous with a parked sender when the channel is not closed:
+// the sender becomes runnable, and a helper goroutine performs the real send that the real
+// receive (executed next by the current thread) is about to meet.
+func (s *Sim) takeSender(cs *chanState) {
+	if cs.closed || len(cs.senders) == 0 {
+		return
+	}
+	snd := cs.senders[0]
+	cs.senders = cs.senders[1:]
+	snd.sendMatched = true
+	s.acquire(s.cur, snd.sendVC)
+	snd.recvVC = append([]uint32{}, s.cur.vc...)
+	s.tick(s.cur)
+	go snd.sendDo()
+}
+
+// Send replaces an unbuffered `ch <- v` statement: the thread parks until a receiver takes the value.
+func Send(ch any, name string, do func()) {
+	s := S
+	k := key(ch)
+	if k == 0 {
+		// send on a nil channel blocks forever
+		s.cur.lastSync = "chan-send"
+		s.yield(pendingOp{kind: opSend, chans: []uintptr{0}, names: []string{name + "(nil)"}})
+		return
+	}
+	_, cs := s.chanOf(ch, name)
+	t := s.cur
+	t.lastSync = "chan-send"
+	if cs.closed {
+		panic("send on closed channel " + cs.name)
+	}
+	t.sendMatched, t.sendClosed, t.sendDo = false, false, do
+	t.sendVC = nil
+	s.release(t, &t.sendVC)
+	cs.senders = append(cs.senders, t)
+	s.yield(pendingOp{kind: opSend, chans: []uintptr{k}, names: []string{cs.name}})
+	if t.sendClosed {
+		panic("send on closed channel " + cs.name)
+	}
+	s.acquire(t, t.recvVC)
+	t.lastEvt = "send"
+	s.event(t.id, "send", cs.name)
 }
 
 // Select is inserted before a select statement; the returned slice masks every
@@ -800,6 +863,7 @@ func Select(hasDefault bool, names []string, chans ...<-chan struct{}) []<-chan 
 		out[m.branch] = chans[m.branch]
 		cs := s.chans[keys[m.branch]]
 		s.acquire(s.cur, cs.vc)
+		s.takeSender(cs)
 		if cs.ctx != nil {
 			s.cur.lastEvt = "select-ctx"
 			if s.cur.id != 0 {
@@ -833,6 +897,10 @@ func Close(ch any, name string) {
 		panic(killSentinel{})
 	}
 	cs.closed = true
+	for _, snd := range cs.senders {
+		snd.sendClosed = true // a send parked on a channel that gets closed panics
+	}
+	cs.senders = nil
 	s.release(s.cur, &cs.vc)
 	s.cur.lastEvt = "close"
 	s.event(s.cur.id, "close", cs.name)
